@@ -678,10 +678,14 @@ impl<S: BitmapSlice + Send + Sync> PassthroughFs<S> {
 
         let mut found = None;
         'search: loop {
+            #[cfg(fuse_backend_rs_verif)]
+            crate::verif_hooks::yield_point(crate::verif_hooks::YP_LOOKUP_BEFORE_PROBE);
             match self.inode_map.get_alt(&id, handle_opt.as_ref()) {
                 // No existing entry found
                 None => break 'search,
                 Some(data) => {
+                    #[cfg(fuse_backend_rs_verif)]
+                    crate::verif_hooks::yield_point(crate::verif_hooks::YP_LOOKUP_AFTER_HIT);
                     let curr = data.refcount.load(Ordering::Acquire);
                     // forgot_one() has just destroyed the entry, retry...
                     if curr == 0 {
@@ -691,6 +695,8 @@ impl<S: BitmapSlice + Send + Sync> PassthroughFs<S> {
                     // Saturating add to avoid integer overflow, it's not realistic to saturate u64.
                     let new = curr.saturating_add(1);
 
+                    #[cfg(fuse_backend_rs_verif)]
+                    crate::verif_hooks::yield_point(crate::verif_hooks::YP_LOOKUP_BEFORE_CAS);
                     // Synchronizes with the forgot_one()
                     if data
                         .refcount
@@ -713,6 +719,8 @@ impl<S: BitmapSlice + Send + Sync> PassthroughFs<S> {
                 InodeHandle::File(path_fd)
             };
 
+            #[cfg(fuse_backend_rs_verif)]
+            crate::verif_hooks::yield_point(crate::verif_hooks::YP_LOOKUP_BEFORE_WLOCK);
             // Write guard get_alt_locked() and insert_lock() to avoid race conditions.
             let mut inodes = self.inode_map.get_map_mut();
 
@@ -809,6 +817,27 @@ impl<S: BitmapSlice + Send + Sync> PassthroughFs<S> {
                 }
             }
         }
+    }
+
+    /// Verification hook (read-only): sizes of the inode `data`, `by_id`, `by_handle` tables,
+    /// of the handle table and of the directory cookie table.
+    #[cfg(fuse_backend_rs_verif)]
+    pub fn verif_table_sizes(&self) -> (usize, usize, usize, usize, usize) {
+        let (d, i, h) = self.inode_map.inodes.read().unwrap().verif_sizes();
+        let handles = self.handle_map.handles.read().unwrap().len();
+        let cookies = self.handle_map.cookies.lock().unwrap().len();
+        (d, i, h, handles, cookies)
+    }
+
+    /// Verification hook (read-only): current lookup count of `inode`, if it is in the table.
+    #[cfg(fuse_backend_rs_verif)]
+    pub fn verif_refcount(&self, inode: Inode) -> Option<u64> {
+        self.inode_map
+            .inodes
+            .read()
+            .unwrap()
+            .get(&inode)
+            .map(|d| d.refcount.load(Ordering::Acquire))
     }
 
     fn do_release(&self, inode: Inode, handle: Handle) -> io::Result<()> {
